@@ -5,11 +5,14 @@ import sys
 sys.path.insert(0, os.path.join(os.path.dirname(__file__), "..", "suites"))
 from core import rng, run_cases  # noqa: E402
 
-MODULES = ["Props.C02"]
+MODULES = ["Props.C02", "Props.C02Tie"]
 THEOREMS = [
     "Props.C02.c02_parse",
     "Props.C02.c02_last_is_greatest",
     "Props.C02.c02_offered",
+    "Props.C02Tie.includes_source_is_model",
+    "Props.C02Tie.is_last_source_is_model",
+    "Props.C02Tie.c02_includes_source",
 ]
 
 
